@@ -2,13 +2,13 @@
 """Apply every kept seeded change to a SCRATCH COPY of /repo (never to /repo itself), run the relevant quick checks against
 the copy (VERIF_REPO_ROOT), replay the first reported violation with and without the change, record the outcome in meta.json.
 usage: tools/run_seeds.py [name-substring]"""
-import json, os, shutil, subprocess, sys, tempfile
+import json, os, re, shutil, subprocess, sys, tempfile
 from pathlib import Path
 ROOT = Path(__file__).resolve().parent.parent
 EXTRA = {"C20": ["C07", "C20"], "C04": ["C04", "C16"], "C05": ["C05", "C18"], "C19": ["C19", "C02"]}
 flt = sys.argv[1] if len(sys.argv) > 1 else ""
 for d in sorted((ROOT / "seeded").iterdir()):
-    if flt not in d.name or not (d / "patch.diff").exists():
+    if not re.search(flt, d.name) or not (d / "patch.diff").exists():
         continue
     meta = json.loads((d / "meta.json").read_text())
     prop = meta["property"]
